@@ -206,6 +206,10 @@ pub enum Op {
     /// table-capacity boundary (`over`: one above it, so that an off-by-one in the headroom picks the
     /// smaller table), then shrink_to_fit
     TightShrink { s: u8, #[serde(default)] over: bool },
+    /// mid-resize: empties the old table with retain (so that it lingers, empty) and then makes the
+    /// main table exactly full (TightShrink): the state in which the next key-adding call has to
+    /// free the lingering table and start a new resize
+    LingerFull { s: u8 },
     /// get() of every key either map holds, in both maps (C14)
     CrossGet,
     // feature checks that need a state
@@ -275,6 +279,7 @@ impl Op {
             Op::RemoveAll { .. } => "remove_all",
             Op::RemoveOld { .. } => "remove_old",
             Op::TightShrink { .. } => "tight_shrink",
+            Op::LingerFull { .. } => "linger_full",
             Op::ParCheck { .. } => "par_check",
             Op::SerdeCheck { .. } => "serde_check",
             Op::SetPoint { which, .. } => match which % 9 {
